@@ -190,7 +190,7 @@ func (rangeConcEngine) Run(ctx *fw.Ctx, cs any) {
 			wg.Add(1)
 			pj := pend[j]
 			pj.call = clock()
-			s.l.InjectAsync(datas[j], 2, relayPeer4, func() {
+			s.l.InjectAsync(datas[j], fakeIf, relayPeer4, func() {
 				pj.ret = clock()
 				wg.Done()
 			})
